@@ -214,11 +214,11 @@ def units(tier):
     q = tier == 'quick'
     us = []
     for name in AES_CLASSES:
-        us.append({'name': 'aes.' + name, 'fn': 'unit_class', 'kwargs': {'cipher': 'aes', 'names': [name], 'n': 60 if q else 1200}})
+        us.append({'name': 'aes.' + name, 'fn': 'unit_class', 'kwargs': {'cipher': 'aes', 'names': [name], 'n': 60 if q else 3000}})
     names = list(DES_CLASSES)
     for i in range(0, len(names), 2 if q else 1):
         grp = names[i:i + (2 if q else 1)]
-        us.append({'name': 'des.' + '+'.join(grp), 'fn': 'unit_class', 'kwargs': {'cipher': 'des', 'names': grp, 'n': 30 if q else 500}})
+        us.append({'name': 'des.' + '+'.join(grp), 'fn': 'unit_class', 'kwargs': {'cipher': 'des', 'names': grp, 'n': 30 if q else 1500}})
     return us
 
 
